@@ -158,3 +158,26 @@ Fixpoint events_use_latest_b (pre rest : list doc) : bool :=
        | _ => true
        end) && events_use_latest_b (pre ++ [x]) rest'
   end.
+
+(* C16, trace form: every event is preceded by a descriptor with the uid it references; that descriptor is the
+   engine's own "interruptions" descriptor or the latest descriptor emitted for its stream at that point *)
+Definition events_follow_descriptors (tr : list doc) : Prop :=
+  forall pre u de seq data filled post,
+    tr = pre ++ DEvent u de seq data filled :: post ->
+    exists d, In (DDescr d) pre /\ de_uid d = de /\
+              (de_name d = interruptions_name \/ latest_descr pre (de_name d) = Some d).
+Fixpoint events_follow_descriptors_b (pre rest : list doc) : bool :=
+  match rest with
+  | [] => true
+  | x :: rest' =>
+      (match x with
+       | DEvent _ de _ _ _ =>
+           existsb (fun y => match y with
+                             | DDescr d => uid_eqb (de_uid d) de &&
+                                           (Nat.eqb (de_name d) interruptions_name ||
+                                            option_beq descr_beq (latest_descr pre (de_name d)) (Some d))
+                             | _ => false
+                             end) pre
+       | _ => true
+       end) && events_follow_descriptors_b (pre ++ [x]) rest'
+  end.
